@@ -13,6 +13,7 @@ A contract is written once and used on both sides:
       replaced by their `Def` value or by a fresh symbol, ghosts are fresh, and
       the post clauses are assumed.  The callee's body is never looked at.
 """
+import os
 import time
 import z3
 from . import values as V
@@ -61,6 +62,17 @@ class Structural:
         self.fn = fn       # fn(pc) -> z3 Bool / bool
         self.props = props
         self.caller_effect = caller_effect   # caller side: reproduce the ghost effect on pc.new
+
+
+class Lemma:
+    """parametric post clause fn(pc, e) -> QF z3 Bool, universally true in e (an object identity).
+    Callee side: proved for a Skolem constant.  Caller side: assumed for the terms the caller cares about
+    (state ghost "lemma_terms": the caller's own Skolem constant and, e.g., an edge's signalling events)."""
+
+    def __init__(self, name, fn, props=()):
+        self.name = name
+        self.fn = fn
+        self.props = props
 
 
 class ExcCase:
@@ -243,6 +255,9 @@ def _build_new_state(con, pc, clauses_fn_result, lineno):
         elif isinstance(it, Structural):
             if it.caller_effect is not None:
                 it.caller_effect(pc)
+        elif isinstance(it, Lemma):
+            for t in pc.old.ghost.get("lemma_terms", []):
+                plain.append(Clause(it.name, (lambda it, t: lambda c: it.fn(c, t))(it, t)))
         else:
             raise TypeError(it)
     for it in plain:
@@ -320,6 +335,9 @@ def verify_function(lib, cls, fname, fnode, con, timeout_ms=10000, want_models=T
         if con.entry_assume is not None:
             for nm, cl in con.entry_assume(entry, args):
                 entry.assume(cl)
+        # Skolem constant of the parametric lemmas (also handed to callee contracts applied in the body)
+        lemma_e0 = z3.Int("lemma_e0")
+        entry.ghost["lemma_terms"] = list(entry.ghost.get("lemma_terms", [])) + [lemma_e0]
         old = entry.fork()      # frozen copy of the entry state for post clauses
         ctx = Ctx(cls, fname, lib, loop_invs=lib.loop_invs(cls, fname), yields=lib.yield_spec(cls, fname, con, old, args),
                   module=profile.get("file"))
@@ -337,6 +355,9 @@ def verify_function(lib, cls, fname, fnode, con, timeout_ms=10000, want_models=T
                 _visit(ch)
         _visit(fnode)
         ctx.loop_index = {id(nd): i for i, nd in enumerate(order)}
+        ctx.loop_nodes = order
+        ctx.fnode = fnode
+        ctx.lemma_e0 = lemma_e0
         ctx.old = old
         ctx.args = args
         ctx.con = con
@@ -386,9 +407,10 @@ def verify_function(lib, cls, fname, fnode, con, timeout_ms=10000, want_models=T
         # inside each path-state group so that every shard gets a share of every (possibly hard) group
         si, sn = shard
         keep = set()
-        for key in order:
+        for gi, key in enumerate(order):
             for j, ob in enumerate(groups[key]):
-                if j % sn == si:
+                # (rotated per group: the same -- possibly hard -- clause of different exits goes to different shards)
+                if (j + 5 * gi) % sn == si:
                     keep.add(id(ob))
         obligs = [ob for ob in obligs if id(ob) in keep]
         for key in order:
@@ -419,7 +441,8 @@ def verify_function(lib, cls, fname, fnode, con, timeout_ms=10000, want_models=T
             # known finding with characteristic condition chi: the obligation must hold outside chi;
             # inside chi we only record whether the finding is still present
             chi_name = carved[id(ob)]
-            chi = lib.chi(cls, chi_name, ctx.old, ctx.args)
+            # (process bodies: the condition is about the state at the last resumption)
+            chi = lib.chi(cls, chi_name, ob.state.ghost.get("resume_old") or ctx.old, ctx.args)
             if chi is None:
                 inside = discharge(ob, timeout_ms, want_models, lib)
                 d = dict(inside)
@@ -430,7 +453,13 @@ def verify_function(lib, cls, fname, fnode, con, timeout_ms=10000, want_models=T
                 ob_out = _with_hyp(ob, z3.Not(chi))
                 d = discharge(ob_out, timeout_ms, want_models, lib)
                 ob_in = _with_hyp(ob, chi)
-                inside = discharge(ob_in, timeout_ms, want_models, lib)
+                # inside chi only "still refutable?" is recorded (the native witness decides): no model search
+                # unless the thorough tier asks for it
+                thorough = bool(os.environ.get("PYVC_CVC5"))
+                inside = discharge(ob_in, timeout_ms if thorough else min(timeout_ms, 4000), want_models and thorough, lib,
+                                   max_rounds=25 if thorough else 0)
+                if inside["status"] == "unknown":
+                    inside["status"] = "not proved"
                 d["inside_chi"] = inside["status"]
                 d["chi"] = chi_name
                 if "model" in inside:
@@ -571,6 +600,9 @@ def _post_item(ctx, pc, it, prefix, lineno, con):
         if isinstance(r, bool):
             r = z3.BoolVal(r)
         ctx.oblige("%s.post.%s" % (prefix, it.name), st, [r], "post", lineno, it.props or con.props)
+    elif isinstance(it, Lemma):
+        e0 = ctx.lemma_e0
+        ctx.oblige("%s.post.%s" % (prefix, it.name), st, [it.fn(pc, e0)], "post", lineno, it.props or con.props)
     else:
         raise TypeError(it)
 
@@ -608,7 +640,7 @@ def discharge_batch(obs, timeout_ms, lib):
     return r.status == "proved"
 
 
-def discharge(ob, timeout_ms, want_models, lib):
+def discharge(ob, timeout_ms, want_models, lib, max_rounds=25):
     """decide one obligation -> dict"""
     hyps = list(ob.pc) + list(ob.hyps)
     negs_q = []
@@ -630,7 +662,7 @@ def discharge(ob, timeout_ms, want_models, lib):
     if len(ob.goals) != 1:
         raise Unsupported("one goal per obligation expected")
     r = logic.solve(hyps + extra_f, negs_q, timeout_ms=timeout_ms, want_model=want_models,
-                    len_terms=lib.len_terms(ob.state))
+                    len_terms=lib.len_terms(ob.state), max_rounds=max_rounds)
     d = {"name": ob.name, "kind": ob.kind, "status": r.status, "seconds": round(r.seconds, 4),
          "lineno": ob.lineno, "props": list(ob.props), "trace": ob.trace[-12:], "reason": r.reason,
          "ninst": r.ninst}
